@@ -73,6 +73,12 @@ func c06Run(c C06Case, limit int64) (*h.Obs, int, string) {
 	var in bytes.Buffer
 	in.WriteString(hello(c.Mode))
 	nCmd := 0 // replies expected before the part under test
+	// kinds data/bdat: Size > 0 makes the client DECLARE that size on the MAIL line (it may be far from the truth: the
+	// limit is the server's, a declared size is a hint that must not become a second limit)
+	declared := ""
+	if c.Size > 0 && (c.Kind == "data" || c.Kind == "bdat") {
+		declared = fmt.Sprintf(" SIZE=%d", c.Size)
+	}
 	switch c.Kind {
 	case "sizebig":
 		sep := " "
@@ -86,12 +92,12 @@ func c06Run(c C06Case, limit int64) (*h.Obs, int, string) {
 		nCmd = 2
 	case "data":
 		_, wire := dataMessage(c.M, c.Dots)
-		in.WriteString("MAIL FROM:<ok@a.example>\r\nRCPT TO:<ok@b.example>\r\nDATA\r\n")
+		in.WriteString("MAIL FROM:<ok@a.example>" + declared + "\r\nRCPT TO:<ok@b.example>\r\nDATA\r\n")
 		in.Write(wire)
 		in.WriteString("RCPT TO:<okprobe@x>\r\nNOOP\r\n")
 		nCmd = 4
 	case "bdat":
-		in.WriteString("MAIL FROM:<ok@a.example>\r\nRCPT TO:<ok@b.example>\r\n")
+		in.WriteString("MAIL FROM:<ok@a.example>" + declared + "\r\nRCPT TO:<ok@b.example>\r\n")
 		sum := int64(0)
 		for i, k := range c.Chunks {
 			last := ""
@@ -570,7 +576,7 @@ func C06(tier string) int {
 	if tier == "thorough" {
 		Ns = []int64{1, 2, 3, 5, 8, 13, 64, 4096, 4097}
 	}
-	run.Rule = fmt.Sprintf("limits N in %v x message sizes N-2..N+2 and 4N x {DATA (plain and dot-stuffed lines), every division into <=3 BDAT chunks incl. empty ones} x backend read sizes {1,3,N,4096} x {one segment, one octet per segment} x {SMTP, LMTP, LMTP per-recipient}; every chunk division of >=2 chunks also with a command {MAIL, RCPT, NOOP, DATA, unknown, MAIL SIZE=1} between the chunks (octet bound only); MAIL SIZE=s for s in {0,1,N-1,N,N+1,10N} for N and for no limit, SIZE above the limit glued to the path / behind TAB / behind two spaces (never accepted), and s at the integer boundaries (2^32-1, 2^32, 2^63-1, 2^63, 2^63+100, 2^64-1, 2^64, 10^23: refused, backend not consulted); BDAT with a declared size at the integer boundaries (2^32-1, 2^32, 2^63-1, 2^63, 2^64-100, 2^64-1, 2^64, 10^23) as first or second chunk, with and without LAST, followed by an over-limit LAST chunk. Plus EVERY message body over the class alphabet {'.',CR,LF,'a'} of <=%d octets (reader seam: read sizes {1,2,3,4096}) / <=%d octets (full server path, modes %v, read sizes {1,4096}) x EVERY limit 1..size+1 x {one segment, one octet per segment}, so that every octet pattern (end-marker look-alikes, dots, bare CR/LF) sits at every offset relative to the limit. LMTP with a per-recipient backend that reports its recipient BEFORE it reads the message: limits {5,8,20} x every size 0..N+45 x read sizes {1,3,4096} x segmentation x plain/dot-stuffed (the limit binds the reader although the replies are decided). Distinct by construction; non-trivial = size within 2 of the limit or above it. Oracle: backend octets <= N; over the limit: reader fails (no EOF), 552, probe RCPT refused; within: observation identical to the same conversation on a server without limit (differential).", Ns, map[bool]int{false: 7, true: 9}[tier == "thorough"], map[bool]int{false: 5, true: 6}[tier == "thorough"], map[bool][]string{false: {"smtp"}, true: {"smtp", "lmtp Plus: a chunk, STARTTLS answered 220, octets that are no handshake, then a LAST chunk that takes the message over the limit (the count of the first chunk survives the failed upgrade).", "lmtp-rcpt"}}[tier == "thorough"])
+	run.Rule = fmt.Sprintf("limits N in %v x message sizes N-2..N+2 and 4N x {DATA (plain and dot-stuffed lines), every division into <=3 BDAT chunks incl. empty ones} x backend read sizes {1,3,N,4096} x {one segment, one octet per segment} x {SMTP, LMTP, LMTP per-recipient}, each also with SIZE=1 declared on the MAIL line (a declared size is a hint, not a second limit); every chunk division of >=2 chunks also with a command {MAIL, RCPT, NOOP, DATA, unknown, MAIL SIZE=1} between the chunks (octet bound only); MAIL SIZE=s for s in {0,1,N-1,N,N+1,10N} for N and for no limit, SIZE above the limit glued to the path / behind TAB / behind two spaces (never accepted), and s at the integer boundaries (2^32-1, 2^32, 2^63-1, 2^63, 2^63+100, 2^64-1, 2^64, 10^23: refused, backend not consulted); BDAT with a declared size at the integer boundaries (2^32-1, 2^32, 2^63-1, 2^63, 2^64-100, 2^64-1, 2^64, 10^23) as first or second chunk, with and without LAST, followed by an over-limit LAST chunk. Plus EVERY message body over the class alphabet {'.',CR,LF,'a'} of <=%d octets (reader seam: read sizes {1,2,3,4096}) / <=%d octets (full server path, modes %v, read sizes {1,4096}) x EVERY limit 1..size+1 x {one segment, one octet per segment}, so that every octet pattern (end-marker look-alikes, dots, bare CR/LF) sits at every offset relative to the limit. LMTP with a per-recipient backend that reports its recipient BEFORE it reads the message: limits {5,8,20} x every size 0..N+45 x read sizes {1,3,4096} x segmentation x plain/dot-stuffed (the limit binds the reader although the replies are decided). Distinct by construction; non-trivial = size within 2 of the limit or above it. Oracle: backend octets <= N; over the limit: reader fails (no EOF), 552, probe RCPT refused; within: observation identical to the same conversation on a server without limit (differential).", Ns, map[bool]int{false: 7, true: 9}[tier == "thorough"], map[bool]int{false: 5, true: 6}[tier == "thorough"], map[bool][]string{false: {"smtp"}, true: {"smtp", "lmtp Plus: a chunk, STARTTLS answered 220, octets that are no handshake, then a LAST chunk that takes the message over the limit (the count of the first chunk survives the failed upgrade).", "lmtp-rcpt"}}[tier == "thorough"])
 	run.Assumptions = []string{"message size = octets after dot-unstuffing, incl. the CRLF in front of the end marker (RFC 1870)", "the backend reads the message to the end and returns the reader's error (a backend that stops early and returns nil claims success itself)", "a declared SIZE >= 2^32 may be refused with 501 (number not parsed) instead of 552; it must be refused without consulting the backend"}
 	var cases []C06Case
 	seen := map[string]bool{}
@@ -600,6 +606,9 @@ func C06(tier string) int {
 						}
 						if m != 1 {
 							add(C06Case{Kind: "data", Mode: mode, N: N, M: m, Buf: buf, PerOct: per})
+							if buf == 4096 && !per {
+								add(C06Case{Kind: "data", Mode: mode, N: N, M: m, Buf: buf, Size: 1})
+							}
 							if m > 2 {
 								add(C06Case{Kind: "data", Mode: mode, N: N, M: m, Dots: true, Buf: buf, PerOct: per})
 							}
@@ -608,6 +617,9 @@ func C06(tier string) int {
 							if N <= 100 {
 								compositions(m, 3, func(parts []int) {
 									add(C06Case{Kind: "bdat", Mode: mode, N: N, M: m, Chunks: append([]int(nil), parts...), Buf: buf, PerOct: per})
+									if buf == 4096 && !per {
+										add(C06Case{Kind: "bdat", Mode: mode, N: N, M: m, Chunks: append([]int(nil), parts...), Buf: buf, Size: 1})
+									}
 									if len(parts) >= 2 && buf == 4096 && !per && int64(m) >= N {
 										for _, inter := range []string{"MAIL FROM:<ok@i.example>", "RCPT TO:<ok@i.example>", "NOOP", "DATA", "FOOB", "MAIL FROM:<ok@i.example> SIZE=1"} {
 											add(C06Case{Kind: "bdat", Mode: mode, N: N, M: m, Chunks: append([]int(nil), parts...), Buf: buf, Inter: inter})
